@@ -80,19 +80,25 @@ type SetSys[T comparable] struct {
 	// algebra compares comparators by code pointer)
 	shared func(a, b T) int
 	calls  int
+	// Custom overrides construction (default constructor treeset.New[T cmp.Ordered]).
+	Custom func(vals ...T) *setAPI[T]
+	Label  string
 }
 
 func (s *SetSys[T]) Name() string {
 	if s.Kind == "treeset" {
-		return s.Kind + "/" + s.CmpN
+		return s.Kind + "/" + s.CmpN + s.Label
 	}
-	return s.Kind
+	return s.Kind + s.Label
 }
 func (s *SetSys[T]) Props() []string { return []string{"C04", "C09", "C15", "C16"} }
 func (s *SetSys[T]) ordered() bool   { return s.Kind == "treeset" }
 func (s *SetSys[T]) linked() bool    { return s.Kind == "linkedhashset" }
 
 func (s *SetSys[T]) newAPI(vals ...T) *setAPI[T] {
+	if s.Custom != nil {
+		return s.Custom(vals...)
+	}
 	switch s.Kind {
 	case "hashset":
 		return wrapHashSet(hashset.New[T](vals...))
@@ -106,7 +112,7 @@ func (s *SetSys[T]) newAPI(vals ...T) *setAPI[T] {
 	}
 	panic("set kind " + s.Kind)
 }
-func (s *SetSys[T]) New() Inst        { return s.newBox() }
+func (s *SetSys[T]) New() Inst          { return s.newBox() }
 func (s *SetSys[T]) newBox() *setBox[T] { return &setBox[T]{sys: s, a: s.newAPI()} }
 
 func (s *SetSys[T]) same(a, b T) bool {
@@ -139,9 +145,9 @@ func defaultSetTuples(u int) [][]int {
 }
 
 type setBox[T comparable] struct {
-	sys *SetSys[T]
-	a   *setAPI[T]
-	ref []T   // members: comparator order (tree), insertion order (linked), any (hash)
+	sys  *SetSys[T]
+	a    *setAPI[T]
+	ref  []T   // members: comparator order (tree), insertion order (linked), any (hash)
 	reps [][]T // admissible representatives per member class (tree, coarse comparators)
 }
 
@@ -317,6 +323,26 @@ func (b *setBox[T]) CheckState() *Viol {
 		arg := argSlice(t)
 		if got := b.a.contains(arg...); got != want {
 			return viol(tag("C04"), "mismatch", "Contains(%v...) = %v, reference members %v say %v", t, got, b.ref, want)
+		}
+	}
+	if n > 0 {
+		// long argument lists with repetitions
+		long := append(append([]T{}, b.ref...), b.ref...)
+		if !b.a.contains(argSlice(long)...) {
+			return viol(tag("C04"), "mismatch", "Contains(every member, twice: %d arguments) = false", len(long))
+		}
+		for _, k := range []int{9, 16, 33} {
+			rep := make([]T, k)
+			for i := range rep {
+				rep[i] = b.ref[(i*7)%n]
+			}
+			if !b.a.contains(argSlice(rep)...) {
+				return viol(tag("C04"), "mismatch", "Contains(%v...) = false although every argument is a member of %v", rep, b.ref)
+			}
+			rep[k/2] = b.sys.Absent
+			if b.a.contains(argSlice(rep)...) {
+				return viol(tag("C04"), "mismatch", "Contains(%v...) = true although %v is not a member of %v", rep, b.sys.Absent, b.ref)
+			}
 		}
 	}
 	if b.sys.ordered() {
